@@ -141,6 +141,8 @@ class Spec:
         sc = W.base_scenario(case)
         pat = case["pattern"]
         p = pat["p"]
+        t_case = time.monotonic()
+        budget = case.get("case_budget_s", 150.0)  # wall-clock cap per case: cuts enumeration short, never a verdict
         rng = random.Random(case.get("prog_seed", 0) * 31 + 7)
         if p == "plain":
             r = run_scenario(copy.deepcopy(sc))
@@ -154,8 +156,13 @@ class Spec:
             mx = pat.get("max_points")
             if mx and len(pts) > mx:
                 pts = rng.sample(pts, mx)
+            if len(pts) > 500:
+                pts = rng.sample(pts, 500)
             acc.out["obs"]["crash_points_enumerated"] = len(pts)
             for pt in pts:
+                if time.monotonic() - t_case > budget:
+                    acc.out["obs"]["cases_cut_short_by_time_budget"] = 1
+                    break
                 sc1 = copy.deepcopy(sc)
                 sc1["crashes"] = [pt]
                 r = run_scenario(copy.deepcopy(sc1))
